@@ -39,6 +39,7 @@ struct Proc {
   SigDisp sig[65];
   uint64_t blocked = 0, pending = 0;
   long alarm_at = 0;
+  bool held = false;              // a scenario may keep a process from running (a delivery program that takes its time)
   int status = 0;                 // wait status once zombie
   std::string name; std::vector<std::string> argv;
   std::map<int, DirStream> dirs; int nextdir = 1;
@@ -66,7 +67,7 @@ struct Step {
 struct World;
 static inline std::string opname(int op);
 
-enum AltType { ALT_NONE = 0, ALT_FAIL, ALT_SHORT, ALT_KILL, ALT_MACHINE_CRASH, ALT_READDIR_LATE, ALT_EINTR, ALT_SIGNAL };
+enum AltType { ALT_NONE = 0, ALT_FAIL, ALT_SHORT, ALT_KILL, ALT_MACHINE_CRASH, ALT_READDIR_LATE, ALT_EINTR, ALT_SIGNAL, ALT_EXIT };
 struct Alt { int kind; int type; int arg; };  // kind: budget kind (explore.hpp); type: AltType; arg: errno / short count
 
 struct Scenario {
@@ -282,14 +283,14 @@ struct World {
     else if (!par || p.ppid == 1) { /* child of the controller: stays zombie so the scenario can read its status */ }
     scn->on_proc_exit(*this, p);
   }
-  void kill_proc(Proc &p, int sig) {
+  void kill_proc(Proc &p, int sig, int status = -1) {   // status >= 0: the process ends as if it had called _exit(status) instead of the pending call
     if (p.st != P_PENDING) return;
     vk_slot *s = &shm->slot[p.slot];
     s->die = 1; s->runsig = 0; s->len = 0;
     if (p.realpid > 0) kill(p.realpid, SIGKILL);
     reply(p);
     slot_used[p.slot] = false;
-    proc_die(p, sig);
+    proc_die(p, status >= 0 ? (status & 255) << 8 : sig);
   }
 
   // ---------------------------------------------------------------- enabledness
@@ -320,7 +321,7 @@ struct World {
     return false;
   }
   bool enabled(Proc &p) {
-    if (p.st != P_PENDING) return false;
+    if (p.st != P_PENDING || p.held) return false;
     if (deliverable(p)) return true;
     const Req &r = p.req;
     switch (r.op) {
